@@ -77,6 +77,11 @@ def simplify_app(fname, attrs, args):
       if hi is not None:
         c = min(c, hi)
       return NF.const(c)
+  if fname == "clip":
+    lo, hi = _bound_const(args[1]), _bound_const(args[2])
+    if lo is not NOTCONST and hi is not NOTCONST and lo is not None and \
+        lo == hi:
+      return NF.const(lo)
   if fname in ("maximum", "minimum") and cs[0] is not None and \
       cs[1] is not None:
     return NF.const(max(cs) if fname == "maximum" else min(cs))
